@@ -336,3 +336,29 @@ PROPS["C06"] = dict(
     level_note="The first sentence of C06 quantifies over all byte strings; TLA+ contributes structured generation and the functional oracle, not coverage of the byte space.",
     design_ref="DESIGN.md section 7, C06",
 )
+
+
+PROPS["C07"] = dict(
+    level="model_checking", leak_every=10, exhaustive=False,
+    stages=lambda tier, seed: [
+        mc("defects", "MC_C07", "MC_C07_%s.cfg" % tier),
+        gen("fuzz", G.c07_fuzz(300 if tier == "quick" else 20000, 60)),
+    ],
+    rule="(defects) from MC_C07: ten valid baselines (oct, RSA private/public/PSS, P-256 private, P-384, P-521, "
+         "secp256k1, Ed25519 private, Ed448 public) x every member of that key type and the common members (kty, alg, "
+         "use, key_ops, kid; n,e,d,p,q,dp,dq,qi; crv,x,y,d; k) x 14 classes (absent, null, integer, real, bool, "
+         "array, object, empty string, not base64url, length 1 mod 4, too short, too long, unknown string, foreign "
+         "value) - one member (quick) or two members (thorough) deviating - as a single JWK and between two good "
+         "keys in a JWKS; every entry point (load, load_strn, create, create_strn, fromfile, fromfp, create_fromfile, "
+         "create_fromfp) x document class (JWKS, JWKS with extra members, top-level array, 10 non-JSON texts, 10 JSON "
+         "documents that are not JWK objects, keys array of non-objects). (fuzz) seeded random bytes, random JSON over "
+         "JWK member names and byte-mutated JWKS texts, judged only for 'returns, no sanitizer report, no leak, each "
+         "new item errored-with-message or usable'. ASan+UBSan, leak check every 10 cases. distinct = distinct scripts.",
+    assumptions=ASSUME_COMMON,
+    level_text="The JWK defect lattice (document class x key type x member x value class) is enumerated completely by "
+               "TLC and executed: set error and no items for non-JSON, exactly one item per element in order, every "
+               "new item either flagged with a message or usable (known kty, key material parses). Memory safety is "
+               "observed under sanitizers on these and on seeded fuzz.",
+    level_note="A 'keys' member that is not an array is unconstrained (the statement does not cover it). Byte-level inputs are not coverage-guided.",
+    design_ref="DESIGN.md section 7, C07",
+)
